@@ -2,6 +2,7 @@ package props
 
 import (
 	"fmt"
+	"io"
 	"runtime"
 
 	"github.com/alttpo/snes/asm"
@@ -503,6 +504,14 @@ func (t *cloneTree) feed(e *asm.Emitter, buf []byte, calls []hcall, depth int) {
 		}
 		if d := snap.diff(observe(e, names)); d != "" {
 			panic(fmt.Errorf("at depth %d, before Append: driving the clones of an emitter changed that emitter: %s", depth, d))
+		}
+		if g.Intn(3) == 0 {
+			// a host looking at a fragment before it decides to keep it: the listings of a clone that has not
+			// been appended are nobody's business (whatever they say or do is discarded), but asking for
+			// them must not change what the fragment contributes
+			vf.Try(func() { _ = sibs[chosen].WriteTextTo(io.Discard) })
+			vf.Try(func() { _ = sibs[chosen].WriteHexTo(io.Discard) })
+			t.cells["tree:clone-listed-before-append"]++
 		}
 		e.Append(sibs[chosen])
 		if late >= 0 {
